@@ -57,6 +57,17 @@ def _rules(r, pre):
         U = nn.unwrap
         ok_pair = ok_pair or (len(sites) == 2 and U(sites[0][1].a) == U(sites[1][1].b) and U(sites[0][1].b) == U(sites[1][1].a) and strip(sites[0][1].d) == strip(sites[1][1].d)
                               and sites[0][1].guards == sites[1][1].guards)
+        if not ok_pair and len(sites) > 2 and len(sites) % 2 == 0:
+            # a conditional on the way doubles the sites: every site then needs its mirror image under the same guards
+            rest_ = [x[1] for x in sites]
+            ok_pair = True
+            while ok_pair and rest_:
+                p_ = rest_.pop(0)
+                m_ = next((k for k, o_ in enumerate(rest_) if U(p_.a) == U(o_.b) and U(p_.b) == U(o_.a) and strip(p_.d) == strip(o_.d) and p_.guards == o_.guards), None)
+                if m_ is None:
+                    ok_pair = False
+                else:
+                    rest_.pop(m_)
         rep.ob(pre + "C01-FGA", MOD + "symdel", ok_pair, "both orientations (i, j, d) and (j, i, d) are inserted under the same guards with the same distance", w,
                expected="ans.add((i, j, dist)); ans.add((j, i, dist))", found=f"{len(sites)} insertion site(s)", key=f"orientations {mode[1]}")
         if sites:
